@@ -582,6 +582,76 @@ def opParse (j : Json) : Json :=
       | none => Json.mkObj [("rejected", "parse"), ("ntokens", toJson ts.length)]
       | some es => Json.mkObj [("tree", Json.arr (es.map jsonOfNode).toArray), ("ntokens", toJson ts.length)]
 
+/-! ### the Py prelude of the source translator, operator by operator (suite `pyops`) -/
+
+partial def pyOfJson (j : Json) : Py.V :=
+  match j with
+  | .null => .none
+  | .bool b => .bool b
+  | .str s => .str s
+  | .num n => .int n.mantissa   -- the harness sends integers only
+  | .obj _ =>
+    match j.getObjVal? "ints" with
+    | .ok (.arr xs) => .ints (xs.toList.map fun x => match x with
+        | .num n => some n.mantissa
+        | _ => none)
+    | _ =>
+      match j.getObjVal? "strs" with
+      | .ok (.arr xs) => .strs (xs.toList.map fun x => match x with
+          | .str s => s
+          | _ => "")
+      | _ =>
+        match j.getObjValAs? String "exc" with
+        | .ok n => .exc n
+        | .error _ => .exc "bad-json"
+  | _ => .exc "bad-json"
+
+def pyToJson (v : Py.V) : Json :=
+  match v with
+  | .none => Json.null
+  | .bool b => toJson b
+  | .int i => toJson i
+  | .str s => toJson s
+  | .ints xs => Json.mkObj [("ints", Json.arr (xs.map fun x => match x with
+      | some i => toJson i
+      | none => Json.null).toArray)]
+  | .strs xs => Json.mkObj [("strs", toJson xs)]
+  | .exc n => Json.mkObj [("exc", toJson n)]
+
+def opPyOp (j : Json) : Json :=
+  let f := getStr j "f"
+  let args : List Py.V := match j.getObjVal? "args" with
+    | .ok (.arr xs) => xs.toList.map pyOfJson
+    | _ => []
+  let r : Py.V :=
+    match f, args with
+    | "truthy", [a] => .bool (Py.truthy a)
+    | "not", [a] => Py.not_ a
+    | "and", [a, b] => Py.and_ a b
+    | "or", [a, b] => Py.or_ a b
+    | "eq", [a, b] => Py.eq a b
+    | "ne", [a, b] => Py.ne a b
+    | "lt", [a, b] => Py.lt a b
+    | "le", [a, b] => Py.le a b
+    | "gt", [a, b] => Py.gt a b
+    | "ge", [a, b] => Py.ge a b
+    | "is", [a, b] => Py.is_ a b
+    | "isnot", [a, b] => Py.isnot a b
+    | "in", [a, b] => Py.in_ a b
+    | "notin", [a, b] => Py.notin a b
+    | "len", [a] => Py.len a
+    | "max", [a] => Py.max a
+    | "min", [a] => Py.min a
+    | "add", [a, b] => Py.add a b
+    | "sub", [a, b] => Py.sub a b
+    | "ite", [c, a, b] => Py.ite_ c a b
+    | "asbool", [a] => Py.asbool a
+    | "isinstance_bool", [a] => Py.isinstance_bool a
+    | "isinstance_int", [a] => Py.isinstance_int a
+    | "isinstance_str", [a] => Py.isinstance_str a
+    | _, _ => .exc "bad-op"
+  Json.mkObj [("r", pyToJson r)]
+
 def handle (line : String) : Json :=
   match Json.parse line with
   | .error e => Json.mkObj [("error", toJson s!"bad-json: {e}")]
@@ -607,6 +677,7 @@ def handle (line : String) : Json :=
     else if op == "print" then opPrint j
     else if op == "parse" then opParse j
     else if op == "printspec" then opPrintSpec j
+    else if op == "pyop" then opPyOp j
     else Json.mkObj [("error", toJson s!"bad-op: {op}")]
 
 partial def loop (h : IO.FS.Stream) (out : IO.FS.Stream) : IO Unit := do
